@@ -533,7 +533,8 @@ func c02Case(w *core.Worker, i int) {
 		_ = os.Remove(filepath.Join(dir, fb))
 	}
 	// path 3: INSERT .. SELECT into the existing file of this dialect, COMMIT; then UPDATE one cell: dialect preserved
-	if created && nrows > 0 && !d.NoHeader {
+	// (also for files without a header line, read with --no-header: their line break is only known once the first record is read)
+	if created && nrows > 0 {
 		before, _ := os.ReadFile(filepath.Join(dir, newFile))
 		args = append(csvqArgs("-q"), d.readArgs()...)
 		ins := core.RunProc(core.ProcOpts{Dir: dir, Args: append(args, fmt.Sprintf("INSERT INTO `%s` SELECT * FROM %s", newFile, srcName)), Timeout: 60 * time.Second})
@@ -550,6 +551,9 @@ func c02Case(w *core.Worker, i int) {
 			if strings.Contains(s1, "lb=none") || strings.Contains(s2, "lb=none") {
 				s1, s2 = c02DropLB(s1), c02DropLB(s2) // a one-line file shows no line break to preserve
 			}
+			if d.NoHeader {
+				s1, s2 = c02DropFirstLine(s1), c02DropFirstLine(s2)
+			}
 			if s1 != s2 {
 				viol("dialect-changed", "INSERT SELECT", fmt.Sprintf("the file was {%s} and is {%s} after the INSERT", s1, s2), after)
 			}
@@ -564,6 +568,9 @@ func c02Case(w *core.Worker, i int) {
 			s1, s2 := c02Sniff(before, d.Format), c02Sniff(after, d.Format)
 			if strings.Contains(s1, "lb=none") || strings.Contains(s2, "lb=none") {
 				s1, s2 = c02DropLB(s1), c02DropLB(s2)
+			}
+			if d.NoHeader {
+				s1, s2 = c02DropFirstLine(s1), c02DropFirstLine(s2)
 			}
 			if s1 != s2 {
 				viol("dialect-changed", "UPDATE", fmt.Sprintf("the file was {%s} and is {%s} after UPDATE .. SET c1 = c1", s1, s2), after)
@@ -585,6 +592,9 @@ func c02Case(w *core.Worker, i int) {
 			{"fxh.txt", "id c1  \n1  abcd\n2  wxyz\n3  ijkl\n", "[3,7]", false, [][]string{{"1", "abcd"}, {"2", "UPD"}, {"3", "ijkl"}}},
 			{"fxn.txt", "1  abcd\n2  wxyz\n3  ijkl\n", "[3,7]", true, [][]string{{"1", "abcd"}, {"2", "UPD"}, {"3", "ijkl"}}},
 			{"fxs.txt", "1 abcd2 wxyz3 ijkl", "S[2,6]", true, [][]string{{"1", "abcd"}, {"2", "UPD"}, {"3", "ijkl"}}},
+			// the same layouts with the line breaks the session does not use (the file's own line break is kept)
+			{"fxhc.txt", "id c1  \r\n1  abcd\r\n2  wxyz\r\n3  ijkl\r\n", "[3,7]", false, [][]string{{"1", "abcd"}, {"2", "UPD"}, {"3", "ijkl"}}},
+			{"fxnc.txt", "1  abcd\r\n2  wxyz\r\n3  ijkl\r\n", "[3,7]", true, [][]string{{"1", "abcd"}, {"2", "UPD"}, {"3", "ijkl"}}},
 		} {
 			fd := core.FreshDir(w.Work, "fixed")
 			core.WriteFiles(fd, map[string]string{f.name: f.body})
@@ -636,6 +646,16 @@ func c02Case(w *core.Worker, i int) {
 	w.Note("probe_classes", probe.class)
 	w.Count("write_paths_compared", int64(compared))
 	w.Case(core.Digest(src, fmt.Sprint(d)), compared > 0 && nrows > 0)
+}
+
+// c02DropFirstLine: in a file without a header line the first line is a record; how its fields are quoted is not a
+// convention the statement names (csvq guesses "every field enclosed" from the absence of bare letters), only encoding,
+// line break and delimiter are compared there
+func c02DropFirstLine(s string) string {
+	if i := strings.Index(s, " first-line="); i >= 0 {
+		return s[:i]
+	}
+	return s
 }
 
 func c02DropLB(s string) string {
